@@ -440,6 +440,9 @@ class Bus (objects.DBusObject):
         owner = queue[0]
 
         if caller is not owner:
+            if caller in queue:
+                queue.remove(caller)
+                return client.NAME_RELEASED
             return client.NAME_NOT_OWNER
 
         del queue[0]
